@@ -125,6 +125,7 @@ PROPS["C14"] = {
 PROPS["C15"] = {
     "units": [
         rapid("chat-machine", "rtpconn", "TestVerif_C15_ChatMachine", 500, 4000),
+        rapid("history-model", "group", "TestVerif_C15_HistoryModel", 2000, 15000),
     ],
     "technique": "model-based stateful property testing (rapid): delivery model and history model",
     "assumptions": [],
@@ -247,6 +248,7 @@ PROPS["C13"] = {
 PROPS["C07"] = {
     "units": [
         rapid("subscription-machine", "rtpconn", "TestVerif_C07_SubscriptionMachine", 600, 4000, timeout={"quick": 900, "thorough": 3600}),
+        rapid("push-timer", "rtpconn", "TestVerif_C07_PushTimer", 60, 300, timeout={"quick": 900, "thorough": 3600}),
     ],
     "technique": "model-based stateful property testing (rapid) of the many-client signalling state machine with real pion offers/answers",
     "assumptions": ["publisher streams are real rtpUpConnections with fabricated tracks pushed through pushConnNow; the 200 ms coalescing timer of pushConn is bypassed",
